@@ -97,121 +97,150 @@ func TestVerifC13(t *testing.T) {
 	uris := c13Grammar(rng, n)
 	all := append([]c13Client{}, clients...)
 	all = append(all, c13Client{ID: "unknown-client"})
+	// pass 0 asks every (uri, client) once; pass 1 asks again, clients in reverse order, every uri that some client was
+	// granted in pass 0 (plus a sample of the rest): the answer for (client, uri) must not depend on what the server
+	// answered before, for this or for any other client
+	first := map[string]bool{}
+	grantedTo := map[string]bool{}
+	ask := func(pass, ui, ci int, raw string, cl c13Client) {
+		qs := url.Values{"response_type": {"code"}, "client_id": {cl.ID}, "scope": {"openid"},
+			"redirect_uri": {raw}, "state": {"st-1"}, "nonce": {"nonce-123456"}}
+		method := "GET"
+		q := verifReq{Method: method, Path: "/idp/oauth2/authorize?" + qs.Encode(), Cookies: map[string]string{"auth_cookie": ck}}
+		if (ui+ci)%5 == 0 {
+			q = verifReq{Method: "POST", Path: "/idp/oauth2/authorize", Form: qs, Cookies: map[string]string{"auth_cookie": ck}}
+		}
+		resp := env.Do(q.Build())
+		cs := c13Case{Client: cl.ID, Redirect: raw, Status: resp.Code}
+		loc := resp.Header.Get("Location")
+		accepted := resp.Code >= 300 && resp.Code < 400 && strings.Contains(loc, "code=")
+		dk := cl.ID + "\x00" + raw
+		if pass == 0 {
+			first[dk] = accepted
+			if accepted {
+				grantedTo[raw] = true
+			}
+		} else if was, seen := first[dk]; seen {
+			rep.Count("asked_again", 1)
+			if was != accepted {
+				rep.Violate("C13/answer-depends-on-history/"+cl.ID, fmt.Sprintf("the same redirect_uri for the same client was answered accepted=%v first and accepted=%v after other requests", was, accepted), cs)
+			}
+		}
+		bu, ok := verifBrowserParse(raw)
+		hostClass := "unparsable"
+		if ok {
+			switch {
+			case verifHostInDomains(bu.Host, []string{"example.com", "other.test"}):
+				hostClass = "on-list"
+			default:
+				hostClass = "off-list"
+			}
+		}
+		rep.Eval(fmt.Sprintf("%s|%s|q=%v|dd=%v|scheme=%s|acc=%v|pass=%d", cl.ID, hostClass, bu.HasQuery, verifPathHasDotDot(bu.Path), bu.Scheme, accepted, pass))
+		if resp.Panic != "" {
+			rep.Violate("C13/panic", "authorize handler panicked", map[string]interface{}{"case": cs, "panic": firstLines(resp.Panic, 10)})
+			return
+		}
+		if !accepted {
+			if len(verifSignedMaterial(resp)) > 0 && resp.Code != 200 {
+				// a login page (401/200 html) carries no JWS; a refusal must not either
+				rep.Violate("C13/code-in-refusal", "signed material in a refused authorization", cs)
+			}
+			rep.Count("refused", 1)
+			if ok && hostClass == "on-list" && bu.Scheme == "https" && !bu.HasQuery && !verifPathHasDotDot(bu.Path) && cl.ID == "domains-only" && bu.Userinfo == "" {
+				rep.Count("legitimate_looking_refused", 1)
+				rep.Obs("legitimate-looking redirect refused (observation only): %q", raw)
+			}
+			return
+		}
+		rep.Count("accepted", 1)
+		cs.Location = loc
+		if cl.ID == "unknown-client" || cl.ID == "none" {
+			rep.Violate("C13/code-to-unconfigured-client/"+cl.ID, "a client without configured hosts/patterns (or unknown) received a code", cs)
+			return
+		}
+		// the Location the browser follows is what was emitted, not what was sent
+		lb, lok := verifBrowserParse(loc)
+		if !lok {
+			rep.Count("accepted_but_location_unparsable_by_reader", 1)
+			rep.Sample("accepted-unparsable", 2, cs)
+			return
+		}
+		cs.Browser = lb.Scheme + "://" + lb.Host
+		// the emitted Location is raw + "?code=..": judge the redirect part with the reader of the raw string
+		rb, rok := verifBrowserParse(raw)
+		var why string
+		switch {
+		case lb.Scheme != "https":
+			why = "not-https"
+		case rok && rb.HasQuery:
+			why = "has-query"
+		case rok && verifPathHasDotDot(rb.Path):
+			why = "dotdot-segment"
+		case len(cl.Domains) > 0 && !verifHostInDomains(lb.Host, cl.Domains):
+			why = "host-off-list"
+			if strings.HasSuffix(lb.Host, ".") && verifHostInDomains(strings.TrimSuffix(lb.Host, "."), cl.Domains) {
+				why = "" // trailing dot of a listed host: same DNS name; not judged
+				rep.Count("trailing_dot_of_listed_host_accepted", 1)
+			}
+		}
+		if why == "" && len(cl.Patterns) > 0 {
+			m := false
+			for _, p := range cl.Patterns {
+				if ok, _ := regexp.MatchString(p, raw); ok {
+					m = true
+				}
+			}
+			if !m {
+				why = "pattern-mismatch"
+			}
+		}
+		if why == "" && len(cl.Domains) == 0 && len(cl.Patterns) > 0 {
+			// patterns-only clients: the browser-contacted host must be the one the pattern names
+			if !verifHostInDomains(lb.Host, []string{"app.example.com", "other.test"}) {
+				why = "pattern-host-confusion"
+			}
+		}
+		if why != "" {
+			cs.Note = why
+			family := "other"
+			switch {
+			case lb.Userinfo != "" || strings.Contains(raw, "@"):
+				family = "userinfo"
+			case strings.Contains(raw, "\\"):
+				family = "backslash"
+			case strings.ContainsAny(raw, "\t\n\r"):
+				family = "control-char"
+			case strings.Contains(raw, "%"):
+				family = "encoded"
+			case !strings.HasPrefix(lb.Host, ".") && hostSuffixNoDot(lb.Host, cl.Domains):
+				family = "suffix-without-dot-boundary"
+			}
+			rep.Violate("C13/"+why+"/"+family+"/"+cl.ID, "authorization code redirected to "+cs.Browser+" ("+why+")", cs)
+		} else {
+			rep.Count("accepted_ok", 1)
+			rep.Sample("accepted:"+cl.ID, 2, cs)
+		}
+	}
 	for ui, raw := range uris {
 		for ci, cl := range all {
 			if !verifThorough() && ui >= 200 && (ui+ci)%3 != 0 {
 				continue
 			}
-			qs := url.Values{"response_type": {"code"}, "client_id": {cl.ID}, "scope": {"openid"},
-				"redirect_uri": {raw}, "state": {"st-1"}, "nonce": {"nonce-123456"}}
-			method := "GET"
-			q := verifReq{Method: method, Path: "/idp/oauth2/authorize?" + qs.Encode(), Cookies: map[string]string{"auth_cookie": ck}}
-			if (ui+ci)%5 == 0 {
-				q = verifReq{Method: "POST", Path: "/idp/oauth2/authorize", Form: qs, Cookies: map[string]string{"auth_cookie": ck}}
-			}
-			resp := env.Do(q.Build())
-			cs := c13Case{Client: cl.ID, Redirect: raw, Status: resp.Code}
-			loc := resp.Header.Get("Location")
-			accepted := resp.Code >= 300 && resp.Code < 400 && strings.Contains(loc, "code=")
-			bu, ok := verifBrowserParse(raw)
-			hostClass := "unparsable"
-			if ok {
-				switch {
-				case verifHostInDomains(bu.Host, []string{"example.com", "other.test"}):
-					hostClass = "on-list"
-				default:
-					hostClass = "off-list"
-				}
-			}
-			rep.Eval(fmt.Sprintf("%s|%s|q=%v|dd=%v|scheme=%s|acc=%v", cl.ID, hostClass, bu.HasQuery, verifPathHasDotDot(bu.Path), bu.Scheme, accepted))
-			if resp.Panic != "" {
-				rep.Violate("C13/panic", "authorize handler panicked", map[string]interface{}{"case": cs, "panic": firstLines(resp.Panic, 10)})
-				continue
-			}
-			if !accepted {
-				if len(verifSignedMaterial(resp)) > 0 && resp.Code != 200 {
-					// a login page (401/200 html) carries no JWS; a refusal must not either
-					rep.Violate("C13/code-in-refusal", "signed material in a refused authorization", cs)
-				}
-				rep.Count("refused", 1)
-				if ok && hostClass == "on-list" && bu.Scheme == "https" && !bu.HasQuery && !verifPathHasDotDot(bu.Path) && cl.ID == "domains-only" && bu.Userinfo == "" {
-					rep.Count("legitimate_looking_refused", 1)
-					rep.Obs("legitimate-looking redirect refused (observation only): %q", raw)
-				}
-				continue
-			}
-			rep.Count("accepted", 1)
-			cs.Location = loc
-			if cl.ID == "unknown-client" || cl.ID == "none" {
-				rep.Violate("C13/code-to-unconfigured-client/"+cl.ID, "a client without configured hosts/patterns (or unknown) received a code", cs)
-				continue
-			}
-			// the Location the browser follows is what was emitted, not what was sent
-			lb, lok := verifBrowserParse(loc)
-			if !lok {
-				rep.Count("accepted_but_location_unparsable_by_reader", 1)
-				rep.Sample("accepted-unparsable", 2, cs)
-				continue
-			}
-			cs.Browser = lb.Scheme + "://" + lb.Host
-			// the emitted Location is raw + "?code=..": judge the redirect part with the reader of the raw string
-			rb, rok := verifBrowserParse(raw)
-			var why string
-			switch {
-			case lb.Scheme != "https":
-				why = "not-https"
-			case rok && rb.HasQuery:
-				why = "has-query"
-			case rok && verifPathHasDotDot(rb.Path):
-				why = "dotdot-segment"
-			case len(cl.Domains) > 0 && !verifHostInDomains(lb.Host, cl.Domains):
-				why = "host-off-list"
-				if strings.HasSuffix(lb.Host, ".") && verifHostInDomains(strings.TrimSuffix(lb.Host, "."), cl.Domains) {
-					why = "" // trailing dot of a listed host: same DNS name; not judged
-					rep.Count("trailing_dot_of_listed_host_accepted", 1)
-				}
-			}
-			if why == "" && len(cl.Patterns) > 0 {
-				m := false
-				for _, p := range cl.Patterns {
-					if ok, _ := regexp.MatchString(p, raw); ok {
-						m = true
-					}
-				}
-				if !m {
-					why = "pattern-mismatch"
-				}
-			}
-			if why == "" && len(cl.Domains) == 0 && len(cl.Patterns) > 0 {
-				// patterns-only clients: the browser-contacted host must be the one the pattern names
-				if !verifHostInDomains(lb.Host, []string{"app.example.com", "other.test"}) {
-					why = "pattern-host-confusion"
-				}
-			}
-			if why != "" {
-				cs.Note = why
-				family := "other"
-				switch {
-				case lb.Userinfo != "" || strings.Contains(raw, "@"):
-					family = "userinfo"
-				case strings.Contains(raw, "\\"):
-					family = "backslash"
-				case strings.ContainsAny(raw, "\t\n\r"):
-					family = "control-char"
-				case strings.Contains(raw, "%"):
-					family = "encoded"
-				case !strings.HasPrefix(lb.Host, ".") && hostSuffixNoDot(lb.Host, cl.Domains):
-					family = "suffix-without-dot-boundary"
-				}
-				rep.Violate("C13/"+why+"/"+family+"/"+cl.ID, "authorization code redirected to "+cs.Browser+" ("+why+")", cs)
-			} else {
-				rep.Count("accepted_ok", 1)
-				rep.Sample("accepted:"+cl.ID, 2, cs)
-			}
+			ask(0, ui, ci, raw, cl)
+		}
+	}
+	for ui, raw := range uris {
+		if !grantedTo[raw] && ui%7 != 0 {
+			continue
+		}
+		for ci := len(all) - 1; ci >= 0; ci-- {
+			ask(1, ui, ci, raw, all[ci])
 		}
 	}
 	rep.Floor("accepted_ok", 30)
 	rep.Floor("refused", 500)
+	rep.Floor("asked_again", 200)
 	rep.Assume("browser behaviour is modelled by a small WHATWG-style reader; strings it cannot decide with certainty (IDNA hosts, forbidden host code points) are not judged")
 }
 
